@@ -13,9 +13,9 @@ ASSUMPTIONS = ["product rule with joint and marginal evaluated by numpy from (mu
 
 
 def _pool(tier):
-    base = [(2, 1, 1), (3, 2, 2), (4, 3, 1), (2, 2, 3), (5, 1, 2), (3, 4, 2), (6, 2, 1), (4, 1, 3)]
+    base = [(2, 1, 1), (3, 2, 2), (4, 3, 1), (2, 2, 3), (5, 1, 2), (3, 4, 2), (6, 2, 1), (4, 1, 3), (7, 1, 1)]
     if tier == "thorough":
-        base += [(5, 3, 2), (6, 1, 1), (2, 4, 2), (3, 1, 1), (4, 4, 2), (5, 2, 3), (3, 3, 3), (6, 3, 2)]
+        base += [(5, 3, 2), (6, 1, 1), (2, 4, 2), (3, 1, 1), (4, 4, 2), (5, 2, 3), (3, 3, 3), (6, 3, 2), (7, 2, 1), (8, 1, 2)]
     return base
 
 
@@ -50,9 +50,9 @@ def _run(case):
         return fails
     tag = case["variant"]
     if tag == "condition_on":
-        ok, c = lib(fails, tag, lambda: p.condition_on(jnp.array(bb)))
+        ok, c = lib(fails, tag, lambda: p.condition_on(libx.IDX(bb)))
     else:
-        ok, c = lib(fails, tag, lambda: p.condition_on_explicit(jnp.array(bb), jnp.array(a)))
+        ok, c = lib(fails, tag, lambda: p.condition_on_explicit(libx.IDX(bb), libx.IDX(a)))
     if not ok:
         return fails
     x = np.asarray(case["x"], float)
